@@ -337,17 +337,19 @@ func fillDerivedNoRun(c *EvalCase) {
 	c.Flag = dumpFlag(flag, c.Flag.Form)
 	seenF, seenS := map[string]bool{}, map[string]bool{}
 	for i := range c.Store.Flags {
-		k := c.Store.Flags[i].Key
+		k, lk := c.Store.Flags[i].lookupKey(), c.Store.Flags[i].LK
 		if !seenF[k] {
 			seenF[k] = true
 			c.Store.Flags[i] = dumpFlag(store.flags[k], c.Store.Flags[i].Form)
+			c.Store.Flags[i].LK = lk
 		}
 	}
 	for i := range c.Store.Segments {
-		k := c.Store.Segments[i].Key
+		k, lk := c.Store.Segments[i].lookupKey(), c.Store.Segments[i].LK
 		if !seenS[k] {
 			seenS[k] = true
 			c.Store.Segments[i] = dumpSegment(store.segments[k], c.Store.Segments[i].Form)
+			c.Store.Segments[i].LK = lk
 		}
 	}
 	c.Ctx = dumpCtx(ctx, c.Ctx.Inv)
